@@ -302,11 +302,23 @@ def signed_dedicated(n, fam='SIGNED'):
     return out
 
 
-def pack(n, fields, family, per=60, passes=None, **kw):
+def pack(n, fields, family, per=60, passes=None, options=True, **kw):
+    """pack fields into structs of at most `per` fields. With options=True the struct-level options rotate over the structs
+    (none / default / debug / default + debug) so that every accessor shape is also generated next to them; `debug` only
+    where every field is a readable scalar."""
     structs = []
-    for c in range(0, len(fields), per):
+    for k, c in enumerate(range(0, len(fields), per)):
         fs = [Field(**{**f.__dict__}) for f in fields[c:c + per]]
         for f in fs:
             f.name = ''
-        structs.append(Struct(n, fs, family=family, passes=list(passes or []), **kw))
+        extra = dict(kw)
+        if options and 'default' not in extra and 'debug' not in extra:
+            opt = k % 4
+            can_debug = all(f.readable and not f.arr for f in fs)
+            if opt in (1, 3):
+                extra['default'] = mask(n) & 0xA5A5A5A5A5A5A5A5A5A5A5A5A5A5A5A5
+                extra['default_form'] = 'const' if k % 8 >= 4 else 'lit'
+            if opt in (2, 3) and can_debug:
+                extra['debug'] = True
+        structs.append(Struct(n, fs, family=family, passes=list(passes or []), **extra))
     return structs
